@@ -119,7 +119,8 @@ def kinds():
                                                            ('@setkey(k2);mac(M1);setkey(key)', lambda o: (o.setkey(b'another key'), o(M1), o.setkey(b'key'))[1])], None)
     K['HMAC-MD5-longkey'] = (lambda: HMAC(MD5(), M2), [('mac(M1)', lambda o: o(M1)), ('mac(empty)', lambda o: o(M0)), ('mac(str)!', lambda o: o('text'))], None)
     tl = [('h(TEXT,force)', lambda o: o(TEXT, True)), ('h(TEXT2)', lambda o: o(TEXT2)), ('h(short)->None', lambda o: o(M1)), ('h(TEXT) no force', lambda o: o(TEXT[:200])),
-          ('h(const)->None', lambda o: o(b'a' * 300)), ('h(int)!', lambda o: o(12)), ('~update(TEXT)', lambda o: (o.update(TEXT), None)[1])]
+          ('h(const)->None', lambda o: o(b'a' * 300)), ('h(int)!', lambda o: o(12)), ('~update(TEXT)', lambda o: (o.update(TEXT), None)[1]),
+          ('~from_hash(digest of a 256-bucket configuration)', lambda o: (o.from_hash(bytes(range(67))), None)[1]), ('~from_hash(too short)', lambda o: (o.from_hash(b'abc'), None)[1])]
     K['TLSH128'] = (lambda: TLSH(128), tl, lambda: TL.tlsh)
     K['TLSH48-3'] = (lambda: TLSH(48, 4, 3), tl[:5], None)
     K['Nilsimsa'] = (lambda: Nilsimsa(), [('h(M1)', lambda o: o(M1)), ('h(empty)', lambda o: o(M0)), ('h(TEXT)', lambda o: o(TEXT)), ('~update(M2)', lambda o: (o.update(M2), None)[1]),
@@ -157,7 +158,10 @@ def kinds():
     K['Salsa20'] = (lambda: Salsa20(Bits(K32, bitorder=1)), st, None)
     K['Chacha-128-12'] = (lambda: Chacha(Bits(K16, bitorder=1), 12), st[:5], None)
     K['crc (functions)'] = (lambda: CRC, [('crc32(M1)', lambda o: o.crc32(M1)), ('crc32(M2)', lambda o: o.crc32(M2)), ('crc32_fix(M1)', lambda o: o.crc32_fix(M1, 0xdeadbeef)),
-                                          ('crc32_fix_pos(M2)', lambda o: o.crc32_fix_pos(M2, 9, 1)), ('crc(str)->None', lambda o: o.crc('abc', o.TABLE32_1)), ('crc32(int)!', lambda o: o.crc32(5))], None)
+                                          ('crc32_fix_pos(M2)', lambda o: o.crc32_fix_pos(M2, 9, 1)), ('crc(str)->None', lambda o: o.crc('abc', o.TABLE32_1)), ('crc32(int)!', lambda o: o.crc32(5)),
+                                          ('crc(M1, caller-made table for 0x8408)', lambda o: o.crc(M1, [Bits(int(e), 16) for e in o.crc_table(Bits(0x8408, 16))], 0xffff, 0)),
+                                          ('crc(M1, caller-made table for 0xa001)', lambda o: o.crc(M1, [Bits(int(e), 16) for e in o.crc_table(Bits(0xa001, 16))], 0xffff, 0)),
+                                          ('crc(M2, caller-made table for 0xedb88320)', lambda o: o.crc(M2, [Bits(int(e), 32) for e in o.crc_table(Bits(0xedb88320, 32))], 0, 0))], None)
     IT = [(0, 3), (1, 5), (2, 7), (3, 9)]
     K['knapsack (functions)'] = (lambda: KS, [('exactsum(12)', lambda o: o.exactsum(list(IT), 12)), ('exactsum(5)', lambda o: o.exactsum(list(IT), 5)), ('exactsum(impossible)', lambda o: o.exactsum(list(IT), 4)),
                                               ('dynprog(16)', lambda o: o.dynprog(list(IT), 16)), ('exactsum(bad item)!', lambda o: o.exactsum([(0, 3), 5, (1, 2)], 5))], None)
@@ -242,9 +246,9 @@ def kind_names():
             'mode-family (shared cipher object)', 'caller-owned buffers']
 
 ALPHA = {'SHA1': 7, 'SHA0': 4, 'SHA2-256': 7, 'SHA2-512/224': 7, 'MD4': 7, 'MD5': 7, 'SHA3-256': 4, 'Keccak': 8, 'Keccak-200': 4, 'MD6': 5, 'Blake256': 7, 'Blake512': 5,
-         'Blake2b': 9, 'Blake2s': 9, 'Skein256': 5, 'Skein512-mac-tree': 4, 'HMAC-SHA256': 5, 'HMAC-MD5-longkey': 3, 'TLSH128': 7, 'TLSH48-3': 5, 'Nilsimsa': 6,
+         'Blake2b': 9, 'Blake2s': 9, 'Skein256': 5, 'Skein512-mac-tree': 4, 'HMAC-SHA256': 5, 'HMAC-MD5-longkey': 3, 'TLSH128': 9, 'TLSH48-3': 5, 'Nilsimsa': 6,
          'AES128': 5, 'AES256': 3, 'DES': 5, 'TDEA': 4, 'Serpent': 4, 'Threefish256': 5, 'ECB-AES': 7, 'CBC-AES': 7, 'CBC-DES-X923': 7, 'ECB-TDEA': 7,
-         'ECB-AES-nopadding': 4, 'CTR-AES': 5, 'CTR-AES-wrapping-counter': 4, 'CTS_ECB-AES': 5, 'CTS_CBC-DES': 4, 'Salsa20': 7, 'Chacha-128-12': 5, 'crc (functions)': 6, 'knapsack (functions)': 5, 'AES-family (integer-equal keys)': 5, 'Threefish-family': 6, 'Skein-family (same No)': 5,
+         'ECB-AES-nopadding': 4, 'CTR-AES': 5, 'CTR-AES-wrapping-counter': 4, 'CTS_ECB-AES': 5, 'CTS_CBC-DES': 4, 'Salsa20': 7, 'Chacha-128-12': 5, 'crc (functions)': 9, 'knapsack (functions)': 5, 'AES-family (integer-equal keys)': 5, 'Threefish-family': 6, 'Skein-family (same No)': 5,
          'Chacha/Salsa-family': 5, 'Nilsimsa-family': 4, 'TLSH-family': 4, 'SHA-family': 8, 'Keccak-family': 5, 'Blake-family': 6, 'MD6-family': 4,
          'HMAC-family (shared hash object)': 4, 'mode-family (shared cipher object)': 6, 'caller-owned buffers': 10}
 
